@@ -369,6 +369,57 @@ func runC12(p *core.Prog, r *core.Report) {
 	})
 	checkTier1StreamBounds(p, r, "C12.R2")
 
+	r.Guard("C12.R2", "NewStages/segmenters", "stage and module segmenters", func() {
+		fn := p.Func(pkgStage, "NewStages")
+		r.Touch(core.FuncName(fn))
+		with := p.FuncObj(pkgBlock, "Segmenter.WithInitialBlock")
+		isMin := func(v ssa.Value) (*ssa.Call, bool) {
+			c, ok := core.SkipConv(v).(*ssa.Call)
+			if !ok {
+				return nil, false
+			}
+			b, ok := c.Call.Value.(*ssa.Builtin)
+			return c, ok && b.Name() == "min"
+		}
+		okStage, okMod := false, false
+		for _, c := range core.FindInstrs(fn, core.IsCallTo(p.FuncObj(pkgStage, "NewStage"))) {
+			seg := c.(ssa.CallInstruction).Common().Args[2]
+			wc, ok := seg.(*ssa.Call)
+			if !ok || core.CommonCallee(wc.Common()) != with {
+				continue
+			}
+			// the initial block of the stage is the running minimum over the layer's modules
+			arg := core.SkipConv(wc.Call.Args[1])
+			ph, isPhi := arg.(*ssa.Phi)
+			if !isPhi {
+				continue
+			}
+			for _, e := range ph.Edges {
+				if mc, ok := isMin(e); ok {
+					for _, a := range mc.Call.Args {
+						if core.SkipConv(a) == ssa.Value(ph) {
+							okStage = true
+						}
+					}
+				}
+			}
+		}
+		r.Check(okStage, "C12.R2", "NewStages/stage-segmenter", "a stage's segmenter starts at the lowest initial block of the modules of its last layer (the running minimum over all of them, not the first module's)", "NewStage does not receive segmenter.WithInitialBlock(<minimum over the layer>)", p.Pos(fn.Pos()))
+		for _, c := range core.FindInstrs(fn, core.IsCallTo(p.FuncObj(pkgStage, "NewModuleState"))) {
+			args := c.(ssa.CallInstruction).Common().Args
+			wc, ok := args[2].(*ssa.Call)
+			if !ok || core.CommonCallee(wc.Common()) != with {
+				continue
+			}
+			// keyed by the same module as the state's name
+			lk, ok := core.SkipConv(wc.Call.Args[1]).(*ssa.Lookup)
+			if ok && sameExpr(lk.Index, args[1], 3) {
+				okMod = true
+			}
+		}
+		r.Check(okMod, "C12.R2", "NewStages/module-segmenter", "each store module's segmenter starts at that module's own initial block", "NewModuleState does not receive segmenter.WithInitialBlock(initBlocks[<its own name>])", p.Pos(fn.Pos()))
+	})
+
 	// ------------------------------------------------------------------ R3
 	r.Guard("C12.R3", "errors", "impossible requests are errors", func() { checkImpossibleRequests(p, r) })
 
@@ -411,7 +462,7 @@ func runC12(p *core.Prog, r *core.Report) {
 		r.Check(okCeil, "C12.R5", "computeLinearHandoffBlockNum/ceil", "rounding the stop block up adds the segment size only when the remainder is non-zero (ceil, not floor+size)", "guarded ceil idiom not found", p.Pos(fn.Pos()))
 	})
 	r.MinInstances("C12.R1", 4)
-	r.MinInstances("C12.R2", 12)
+	r.MinInstances("C12.R2", 14)
 	r.MinInstances("C12.R3", 5)
 	r.MinInstances("C12.R5", 7)
 }
@@ -895,5 +946,37 @@ func checkTier1StreamBounds(p *core.Prog, r *core.Report, rule string) {
 			okInit := core.Trace(args[2], 0).HasCall(p.FuncObj(pkgExec, "Graph.LowestInitBlock")) && core.Trace(args[3], 0).HasCall(p.FuncObj(pkgExec, "Graph.LowestStoresInitBlock"))
 			r.Check(ok && okInit, rule, "tier1.blocks/plan-args", "the plan is built from the same resolved start, hand-off and stop as the stream, and from the graph's lowest (store) initial blocks", "argument provenance differs", p.Pos(c.Pos()))
 		}
+	})
+	r.Guard(rule, "raw-start", "the request's raw start block is not used for planning", func() {
+		req := p.Named("pb/sf/substreams/rpc/v2", "Request")
+		rawF := core.FieldOf(req, "StartBlockNum")
+		forbidden := map[*types.Func]string{}
+		for _, n := range []struct{ pkg, fn string }{{pkgPlan, "BuildTier1RequestPlan"}, {pkgPipe, "reprocStateRequired"}, {pkgPipe, "computeLinearHandoffBlockNum"}, {pkgBlock, "NewSegmenter"}, {pkgBlock, "NewRange"}} {
+			forbidden[p.FuncObj(n.pkg, n.fn)] = n.fn
+		}
+		nLoads := 0
+		bad := ""
+		for _, fname := range []struct{ pkg, fn string }{{pkgSvc, "Tier1Service.blocks"}, {pkgPipe, "BuildRequestDetails"}} {
+			fn := p.Func(fname.pkg, fname.fn)
+			core.Instrs(fn, func(in ssa.Instruction) {
+				v, ok := in.(ssa.Value)
+				if !ok {
+					return
+				}
+				if f, _ := core.LoadedField(v); f != rawF {
+					return
+				}
+				nLoads++
+				for _, sk := range core.ForwardSinks(v, 6) {
+					if sk.Callee != nil {
+						if n, isF := forbidden[sk.Callee]; isF {
+							bad = fname.fn + " hands request.StartBlockNum to " + n + " at " + p.Pos(sk.Instr.Pos())
+						}
+					}
+				}
+			})
+		}
+		r.Check(bad == "", rule, "raw-start-not-planned", "once the start block has been resolved (cursor, negative offsets), the request's raw start_block_num is only logged, validated or part of the request id: it never reaches the plan, the hand-off computation or a segmenter", bad, "")
+		_ = nLoads
 	})
 }
